@@ -503,10 +503,34 @@ def _drive_big(args):
 
 
 def kf_glide_rows(v, f):
-    """KF-C12-glide-rows: only the split of duty between utilities differs, and the ladder has a gliding utility (see KF-C04-glide)"""
-    lad = (v.case.get("problem") or {}).get("ladder") or []
-    return (v.clause == "C12.invariant_under.split_large" and v.detail.get("field") == "utility duty"
-            and any(abs(u["ts"] - u["tt"]) > 10 for u in lad))
+    """KF-C12-glide-rows: only the split of duty between utilities differs, and the ladder has a gliding utility (see KF-C04-glide).
+    Two shapes of case: the large-site leg (clause split_large) and the SiteGen leg (description split2: a cut off the lattice)."""
+    if v.clause == "C12.invariant_under.split_large":
+        lad = (v.case.get("problem") or {}).get("ladder") or []
+        return v.detail.get("field") == "utility duty" and any(abs(u["ts"] - u["tt"]) > 10 for u in lad)
+    if v.clause in ("C12.invariant_under.split2", "C12.graph_data_invariant_under.split2"):
+        lad = v.case.get("ladder") or []
+        if not any(abs(u["ts"] - u["tt"]) > 10 for u in lad):
+            return False
+        runs = {r["g"]: r for r in v.detail.get("runs", [])}
+        b, s2 = runs.get("base"), runs.get("split2")
+        if not b or not s2 or b["err"] or s2["err"] or len(b["recs"]) != len(s2["recs"]):
+            return False
+        duties_differ = False
+        for x, y in zip(b["recs"], s2["recs"]):
+            if any(x[k_] != y[k_] for k_ in ("name", "kind", "Qh", "Qc", "Qr", "hasPinch", "hotPinch", "coldPinch")):
+                return False               # anything but the utility split differs: not this finding
+            if [u["name"] for u in x["hu"] + x["cu"]] != [u["name"] for u in y["hu"] + y["cu"]]:
+                return False
+            if any(abs(u["q"] - w["q"]) > 12 for u, w in zip(x["hu"] + x["cu"], y["hu"] + y["cu"])):
+                duties_differ = True
+        if not duties_differ:
+            return False
+        if v.clause.startswith("C12.graph_data"):
+            g = ((s2.get("gdiff") or {}).get("graph") or "")
+            return any(t in g for t in ("Balanced Composite Curves", "Grand Composite Curve", "Total Site Profiles", "Site Utility"))
+        return True
+    return False
 
 
 def big_split_leg(run, tier):
@@ -537,6 +561,8 @@ def big_split_leg(run, tier):
 
 def check(prop, tier, run: Run, replay_case=None):
     pre = prop + "."
+    if prop == "C12":
+        run.register_matcher("kf_glide_rows", kf_glide_rows)
     if replay_case is not None:
         _init()
         ev = drive((0, replay_case["case"]))
